@@ -55,6 +55,23 @@ class FalsyState:
         self.flag = st
 
 
+class FreshState:
+    """the state is a temporary computed on demand (a float that nothing but the dump itself keeps alive): once its node is
+    written the allocator may hand its address to the next object's state, so the memo has to pin it"""
+
+    def __init__(self, db=1.5):
+        self.db = db
+
+    def __getstate__(self):
+        return self.db * 2.0
+
+    def __setstate__(self, st):
+        self.db = st / 2.0
+
+    def __eq__(self, o):
+        return type(o) is type(self) and o.db == self.db
+
+
 class Slotted:
     __slots__ = ("a", "b")
 
@@ -111,7 +128,7 @@ class MyByteArray(bytearray):
 
 Point = collections.namedtuple("Point", ["x", "y"])
 
-USER_CLASSES = {"FalsyState": FalsyState, "Plain": Plain, "WithState": WithState, "Slotted": Slotted, "ReduceCtor": ReduceCtor, "RaisingState": RaisingState}
+USER_CLASSES = {"FalsyState": FalsyState, "Plain": Plain, "WithState": WithState, "Slotted": Slotted, "ReduceCtor": ReduceCtor, "RaisingState": RaisingState, "FreshState": FreshState}
 
 TYPES = {"int": int, "float": float, "str": str, "list": list, "dict": dict, "tuple": tuple, "set": set, "bool": bool,
          "np.float64": np.float64, "np.int32": np.int32, "np.ndarray": np.ndarray, "Plain": Plain, "bytes": bytes, "map": map}
@@ -299,6 +316,8 @@ def build(spec, made=None):
             return o
         if cls is FalsyState:
             return keep(FalsyState(B(spec[2][0][1]) if spec[2] else False))
+        if cls is FreshState:
+            return keep(FreshState(B(spec[2][0][1]) if spec[2] else 1.5))
         if cls is Slotted:
             return keep(Slotted(*[B(v) for _, v in spec[2][:2]]))
         if cls is ReduceCtor:
